@@ -8,14 +8,23 @@
 // height, full semantic store dump equal, and re-executing the remaining blocks (same tx bytes) must
 // reproduce the same tx results and app hashes. Any write that reaches the DB outside a commit's single
 // batch shows up as an extra unit and is therefore itself a crash point.
+//
+// Commit SCALE is a dimension of its own: the blocks of the app-level scenarios commit < 64 KiB, > 64 KiB, > 1 MiB
+// and > 4 MiB (realm objects holding 32 KiB strings: created, overwritten in place, several txs per block), and
+// storelevel.go repeats the enumeration without the VM on the multistore mounted exactly like gno.land's, for every
+// ordered pair of commit scales under every pruning strategy.
 package main
 
 import (
+	"flag"
 	"fmt"
+	"os"
 	"runtime/debug"
 	"strings"
+	"sync"
 	"time"
 
+	"github.com/gnolang/gno/gno.land/pkg/sdk/vm"
 	"github.com/gnolang/gno/tm2/pkg/amino"
 	abci "github.com/gnolang/gno/tm2/pkg/bft/abci/types"
 	"github.com/gnolang/gno/tm2/pkg/sdk/bank"
@@ -45,6 +54,30 @@ func Grow(cur realm, n int) int {
 	return len(items)
 }
 func Shrink(cur realm) int { items = nil; return 0 }
+
+// big commits: every blob is an object of its own holding a kib KiB string
+type blob struct{ s string }
+
+var blobs []*blob
+
+func Fill(cur realm, n int, kib int, tag string) int {
+	s := tag + "0123456789abcdef"
+	for len(s) < kib*1024 {
+		s = s + s
+	}
+	for i := 0; i < n; i++ {
+		blobs = append(blobs, &blob{s: s})
+	}
+	return len(blobs)
+}
+
+// Refill overwrites every blob in place.
+func Refill(cur realm, tag string) int {
+	for _, b := range blobs {
+		b.s = tag + b.s[len(tag):]
+	}
+	return len(blobs)
+}
 `
 
 var (
@@ -58,11 +91,21 @@ type scenario struct {
 	name   string
 	prune  types.PruneStrategy
 	blocks [][]func(c *chainx.Chain) std.Tx
+	scale  []int // scale[i] = physical bytes the commit of block i+1 must exceed (asserted on the reference run)
 }
 
 func call(k chainx.Key, fn string, args ...string) func(c *chainx.Chain) std.Tx {
 	return func(c *chainx.Chain) std.Tx {
 		return c.MakeTx(keys, []std.Msg{chainx.Call(k.Addr, nil, stPath, fn, args...)}, chainx.TxOpt{})
+	}
+}
+
+// bigCall: a call that stores / overwrites MiBs: large gas allowance and an explicit storage deposit.
+func bigCall(k chainx.Key, fn string, args ...string) func(c *chainx.Chain) std.Tx {
+	return func(c *chainx.Chain) std.Tx {
+		m := vm.NewMsgCall(k.Addr, nil, stPath, fn, args)
+		m.MaxDeposit = coins(5_000_000_000)
+		return c.MakeTx(keys, []std.Msg{m}, chainx.TxOpt{GasWanted: 2_000_000_000, FeeAmount: 50_000_000})
 	}
 }
 
@@ -86,13 +129,35 @@ func scenarios(thorough bool) []scenario {
 		{},
 		{call(B, "Write", "two"), inc},
 	}
+	// the same blocks with commits at several scales (crash-point count per scenario unchanged):
+	//   A: small | > 64 KiB | > 1 MiB | empty        B: small | > 1 MiB | > 4 MiB (in-place overwrite + 3 txs) | empty
+	with := func(blk []func(c *chainx.Chain) std.Tx, more ...func(c *chainx.Chain) std.Tx) []func(c *chainx.Chain) std.Tx {
+		return append(append([]func(c *chainx.Chain) std.Tx{}, blk...), more...)
+	}
+	scaleA := [][]func(c *chainx.Chain) std.Tx{
+		base[0],
+		with(base[1], bigCall(A, "Fill", "3", "32", "a2")),
+		with(base[2], bigCall(B, "Fill", "40", "32", "a3")),
+		base[3],
+		with(base[4], bigCall(A, "Refill", "a5")),
+	}
+	scaleB := [][]func(c *chainx.Chain) std.Tx{
+		base[0],
+		with(base[1], bigCall(A, "Fill", "40", "32", "b2")),
+		with(base[2], bigCall(B, "Refill", "B3"), bigCall(A, "Fill", "40", "32", "b3"), bigCall(B, "Fill", "40", "32", "c3"), bigCall(A, "Fill", "16", "32", "d3")),
+		base[3],
+		with(base[4], bigCall(A, "Refill", "b5")),
+	}
+	scA := []int{0, 64 << 10, 1 << 20, 0, 1 << 20}
+	scB := []int{0, 1 << 20, 4 << 20, 0, 4 << 20}
 	scs := []scenario{
-		{"syncable", types.PruneSyncableStrategy, base[:4]},
-		{"prune-everything", types.PruneEverythingStrategy, base[:4]},
+		{"syncable", types.PruneSyncableStrategy, scaleA[:4], scA},
+		{"prune-everything", types.PruneEverythingStrategy, scaleB[:4], scB},
 	}
 	if thorough {
-		scs = append(scs, scenario{"prune-nothing-5-blocks", types.PruneNothingStrategy, base},
-			scenario{"prune-everything-5-blocks", types.PruneEverythingStrategy, base})
+		scs = append(scs, scenario{"prune-nothing-5-blocks", types.PruneNothingStrategy, scaleB, scB},
+			scenario{"prune-everything-5-blocks", types.PruneEverythingStrategy, scaleA, scA},
+			scenario{"syncable-5-blocks-small", types.PruneSyncableStrategy, base, nil})
 	}
 	return scs
 }
@@ -108,12 +173,14 @@ func spec(p types.PruneStrategy) chainx.Spec {
 }
 
 type ref struct {
-	boundary []int      // boundary[h] = number of log units after the commit of height h (h=0: genesis)
-	hash     [][]byte   // app hash per height
-	dump     []string   // HashDump of committed state per height
-	txs      [][][]byte // tx bytes per block (index = height-1)
-	results  [][]string // ResKey per tx per block
-	units    []crashdb.Unit
+	txErrors    []string
+	commitBytes []int      // physical bytes (keys+values) written by the commit of height h
+	boundary    []int      // boundary[h] = number of log units after the commit of height h (h=0: genesis)
+	hash        [][]byte   // app hash per height
+	dump        []string   // HashDump of committed state per height
+	txs         [][][]byte // tx bytes per block (index = height-1)
+	results     [][]string // ResKey per tx per block
+	units       []crashdb.Unit
 }
 
 var r *vk.Run
@@ -131,6 +198,7 @@ func reference(sc scenario) (*ref, error) {
 	}
 	rf := &ref{}
 	rf.boundary = append(rf.boundary, db.NumUnits())
+	rf.commitBytes = append(rf.commitBytes, 0)
 	rf.hash = append(rf.hash, c.Base.LastCommitID().Hash)
 	rf.dump = append(rf.dump, chainx.HashDump(c.Dump()))
 	for _, blk := range sc.blocks {
@@ -141,9 +209,24 @@ func reference(sc scenario) (*ref, error) {
 			tx := mk(c)
 			b := amino.MustMarshal(tx)
 			bz = append(bz, b)
-			rs = append(rs, chainx.ResKey(c.DeliverRaw(b)))
+			res := c.DeliverRaw(b)
+			rs = append(rs, chainx.ResKey(res))
+			if res.Error != nil {
+				rf.txErrors = append(rf.txErrors, fmt.Sprintf("block %d tx %d: %s", len(rf.txs)+1, len(rs)-1, firstLine(res.Log)))
+			}
 		}
+		before := db.NumUnits()
 		_, h := c.EndBlockCommit()
+		nb := 0
+		for _, u := range db.Units[before:] {
+			for _, o := range u.Ops {
+				nb += len(o.K) + len(o.V)
+			}
+		}
+		rf.commitBytes = append(rf.commitBytes, nb)
+		if i := len(rf.txs); i < len(sc.scale) && nb <= sc.scale[i] {
+			return nil, fmt.Errorf("block %d commits %d physical bytes, scenario wants > %d (failed txs: %v)", i+1, nb, sc.scale[i], rf.txErrors)
+		}
 		rf.txs = append(rf.txs, bz)
 		rf.results = append(rf.results, rs)
 		rf.boundary = append(rf.boundary, db.NumUnits())
@@ -239,9 +322,31 @@ func firstLine(s string) string {
 func abs(x abci.ResponseDeliverTx) {}
 
 func main() {
-	debug.SetGCPercent(400)
+	gcp := 400
+	if v := os.Getenv("VERIF_GOGC"); v != "" {
+		fmt.Sscan(v, &gcp)
+	}
+	debug.SetGCPercent(gcp)
+	part := flag.String("part", "app,store", "which levels to run")
 	r = vk.New("fault_enumeration")
+	doApp, doStore := strings.Contains(*part, "app"), strings.Contains(*part, "store")
+	if r.Thorough() && os.Getenv("VERIF_GOGC") == "" {
+		debug.SetGCPercent(150) // ~28 app re-opens + 5 store-level workers with MiB-sized commits: 17 GB RSS at 400
+	}
 	r.SetBudget(240*time.Second, 25*time.Minute)
+	// store-level enumeration runs beside the app-level one on a few workers of its own (the app-level crash points
+	// are a handful of long single-threaded jobs)
+	slCov := map[string]any{"crash_points": 0}
+	var slWG sync.WaitGroup
+	if doStore {
+		slWG.Add(1)
+		go func() {
+			defer slWG.Done()
+			t0 := time.Now()
+			slCov = storeLevel(r, 5)
+			slCov["wall_s"] = time.Since(t0).Seconds()
+		}()
+	}
 	type job struct {
 		sc    scenario
 		rf    *ref
@@ -250,11 +355,26 @@ func main() {
 		label string
 	}
 	var jobs []job
+	scs := scenarios(r.Thorough())
+	if !doApp {
+		scs = nil
+	}
+	refs := make([]*ref, len(scs))
+	errs := make([]error, len(scs))
+	var wg sync.WaitGroup
+	for i := range scs {
+		wg.Add(1)
+		go func(i int) {
+			defer wg.Done()
+			refs[i], errs[i] = reference(scs[i])
+		}(i)
+	}
+	wg.Wait()
 	var layout []map[string]any
-	for _, sc := range scenarios(r.Thorough()) {
-		rf, err := reference(sc)
-		if err != nil {
-			r.HarnessError("reference run %s: %v", sc.name, err)
+	for i, sc := range scs {
+		rf := refs[i]
+		if errs[i] != nil {
+			r.HarnessError("reference run %s: %v", sc.name, errs[i])
 		}
 		var kinds []string
 		for i, u := range rf.units {
@@ -262,26 +382,23 @@ func main() {
 				kinds = append(kinds, fmt.Sprintf("%s(%d ops,sync=%v)", u.Kind, len(u.Ops), u.Sync))
 			}
 		}
-		layout = append(layout, map[string]any{"scenario": sc.name, "units_total": len(rf.units), "boundaries": rf.boundary, "units_after_genesis": kinds})
-		// every prefix from "just before the genesis commit's last unit" to the full log
-		start := rf.boundary[0] - 3
-		if start < 0 {
-			start = 0
-		}
-		for k := start; k <= len(rf.units); k++ {
-			if k < rf.boundary[0] {
-				continue // before genesis is durable there is no committed version to come back to (InitChain is re-run by the node)
-			}
+		layout = append(layout, map[string]any{"scenario": sc.name, "units_total": len(rf.units), "boundaries": rf.boundary, "units_after_genesis": kinds,
+			"physical_commit_bytes_per_block": rf.commitBytes[1:], "failed_txs": rf.txErrors})
+		// every prefix from the genesis commit's last unit to the full log
+		for k := rf.boundary[0]; k <= len(rf.units); k++ {
+			// (before genesis is durable there is no committed version to come back to: InitChain is re-run by the node)
 			jobs = append(jobs, job{sc, rf, rf.units, k, fmt.Sprintf("atomic-batch:k=%d", k-rf.boundary[0])})
 		}
-		r.Sample(map[string]any{"scenario": sc.name, "write_units_per_commit": kinds})
+		r.Sample(map[string]any{"scenario": sc.name, "write_units_per_commit": kinds, "physical_commit_bytes_per_block": rf.commitBytes[1:]})
 	}
 	r.ParFor(len(jobs), func(i int) { j := jobs[i]; crashAt(j.sc, j.rf, j.units, j.k, j.label) })
+	slWG.Wait()
 	r.Assumptions = []string{
 		"process-kill model: every completed physical write unit survives; a batch write is atomic (true for memdb, goleveldb, pebbledb, boltdb batches)",
 		"crash points before the genesis commit is durable are out of scope (the node re-runs InitChain)",
-		"state equality = app hash + full semantic dump of both stores through the multistore",
+		"state equality = app hash + full semantic dump of both stores through the multistore (store level: Get of every key of the key universe + iteration of both stores, values by length+SHA-256)",
+		"app level, quick tier: pruning strategies syncable and everything (syncable keeps 705600 recent versions, i.e. behaves like nothing at this depth); nothing runs in the thorough tier; the store level runs syncable, everything, nothing and KeepRecent=2",
 	}
-	r.Finish("every prefix of the physical write log of genesis+N blocks (N=4 quick, 5 thorough; pruning strategies syncable/everything/nothing); distinct = distinct (scenario, crash point, height found)",
-		true, map[string]any{"crash_points": len(jobs), "layout": layout})
+	r.Finish("every prefix of the physical write log of genesis+N blocks of the real app (N=4 quick, 5 thorough; commits of < 64 KiB, > 64 KiB, > 1 MiB, > 4 MiB) and of every block sequence s,X,Y,s over 6 commit shapes x 4 pruning options at the store level; distinct = distinct (scenario, crash point, version found)",
+		!r.Capped(), map[string]any{"crash_points": len(jobs) + slCov["crash_points"].(int), "app_level_crash_points": len(jobs), "layout": layout, "store_level": slCov})
 }
